@@ -894,6 +894,9 @@ func (env *Zlisp) Run() (Sexp, error) {
 				env.curfunc.name)
 		}
 		err := instr.Execute(env)
+		if err == nil {
+			err = env.verifAfterExecute(instr)
+		}
 		if err != nil {
 			env.restoreControlState(runState)
 			env.pc = functionSize(env.curfunc)
